@@ -14,6 +14,59 @@ SKIP_FNS = {("src/masscanned.rs", "main"), ("src/masscanned.rs", "get_channel")}
 INVENTORY = os.path.join(VERIF, "harness", "panic_inventory.json")
 
 
+OPEN, CLOSE = "([{", ")]}"
+
+
+def _strip_comments(text):
+    return "\n".join(l if not l.strip().startswith("//") else "" for l in text.split("\n"))
+
+
+def site_expr(text, start, tok):
+    """Identity of a panic site: for .unwrap() / .expect( the receiver expression the call is applied to -- scanned
+    backwards from the call over identifiers, paths, field accesses, `?`, `&`, `*`, `!`, balanced brackets, and over
+    line breaks where rustfmt has broken a method chain or an argument list -- with every bracketed argument list
+    elided and white space removed, followed by the call's name. So `let mut ct = CONTABLE.lock().unwrap();`,
+    `f(CONTABLE.lock().unwrap().get_mut(&c))` and a chain broken over several lines are all `CONTABLE.lock().unwrap()`,
+    and `X::owned(vec![0; n]).expect("..")` is `X::owned().expect(` whatever n and the message are. For the macros
+    (panic!, assert!, ...): the statement's first line."""
+    if not tok.startswith("."):
+        ls = text.rfind("\n", 0, start) + 1
+        le = text.find("\n", start)
+        return re.sub(r"\s+", " ", text[ls:le if le >= 0 else len(text)].strip()).rstrip(" ;,")
+    i, depth = start, 0
+    while i > 0:
+        c = text[i - 1]
+        if c in CLOSE:
+            depth += 1
+        elif c in OPEN:
+            if depth == 0:
+                break
+            depth -= 1
+        elif depth == 0:
+            if c.isspace():
+                # a line break inside a method chain: the text to the right starts with '.'
+                if text[i:start + 1].lstrip().startswith(".") and not text[i:].lstrip().startswith(".."):
+                    i -= 1
+                    continue
+                break
+            if not (c.isalnum() or c in "_.:?&*!<>'\""):
+                break
+        i -= 1
+    recv, out, depth = text[i:start], [], 0
+    for c in recv:
+        if c in OPEN:
+            if depth == 0:
+                out.append(c)
+            depth += 1
+        elif c in CLOSE:
+            depth -= 1
+            if depth == 0:
+                out.append(c)
+        elif depth == 0 and not c.isspace():
+            out.append(c)
+    return "".join(out) + (".unwrap()" if tok.startswith(".unwrap") else ".expect(")
+
+
 def scan(repo=REPO):
     sites = []
     for root, dirs, fs in os.walk(os.path.join(repo, "src")):
@@ -25,29 +78,25 @@ def scan(repo=REPO):
             rel = os.path.relpath(p, repo)
             if rel in SKIP_FILES:
                 continue
-            fn = "?"
+            text = open(p).read()
+            cut = text.find("#[cfg(test)]")
+            text = _strip_comments(text if cut < 0 else text[:cut])
+            fns = [(m.start(), m.group(3)) for m in re.finditer(FN.pattern, text, re.M)]
             seen = {}
-            for line in open(p).read().split("\n"):
-                s = line.strip()
-                if s.startswith("#[cfg(test)]"):
-                    break
-                if s.startswith("//"):
+            for t in TOK.finditer(text):
+                fn = next((n for pos, n in reversed(fns) if pos <= t.start()), "?")
+                if (rel, fn) in SKIP_FNS:
                     continue
-                m = FN.match(line)
-                if m:
-                    fn = m.group(3)
-                for t in TOK.finditer(line):
-                    if (rel, fn) in SKIP_FNS:
-                        continue
-                    key = "%s|%s|%s" % (rel, fn, re.sub(r"\s+", " ", s))
-                    seen[key] = seen.get(key, 0) + 1
-                    sites.append(key + ("#%d" % seen[key] if seen[key] > 1 else ""))
+                key = "%s|%s|%s" % (rel, fn, site_expr(text, t.start(), t.group(0)))
+                seen[key] = seen.get(key, 0) + 1
+                sites.append(key + ("#%d" % seen[key] if seen[key] > 1 else ""))
     return sites
 
 
 def _bag(keys):
-    """multiset of (file, site text): the enclosing function and the occurrence number are not part of a site's identity,
-    so that moving a site into a helper function of the same file is not reported"""
+    """multiset of (file, site expression): the enclosing function, the occurrence number and the statement around the
+    panicking call are not part of a site's identity, so that moving a site into a helper function of the same file,
+    rewriting the statement around it or reformatting it is not reported"""
     bag = {}
     for k in keys:
         f, fn, text = k.split("|", 2)
